@@ -29,14 +29,80 @@ PERMS = list(itertools.permutations(["INF", "NAN", "ZERO", "ONE", "NONE"], 4))
 
 
 def cases(tier, seed):
-    for i in range(1500 if tier == "quick" else 40000):
+    for i in range(4000 if tier == "quick" else 60000):
         yield {"fam": "rand", "i": i}
-    for i in range(360 if tier == "quick" else 3600):
+    for i in range(900 if tier == "quick" else 9000):
         yield {"fam": "empty", "i": i}
 
 
 def setup(ctx):
     monitors.install(ctx, set())
+    ctx._persist = None
+
+
+EMPTY_PROBES = None
+
+
+def empty_probes():
+    global EMPTY_PROBES
+    if EMPTY_PROBES is None:
+        z = np.zeros((4, 6), np.uint8)
+        a = z.copy()
+        a[1:3, 1:4] = 1
+        EMPTY_PROBES = [("empty_pred", z.copy(), a.copy()), ("empty_ref", a.copy(), z.copy()), ("both_empty", z.copy(), z.copy())]
+    return EMPTY_PROBES
+
+
+def probe_globals(ev, cfg):
+    out = {}
+    for n, p, q in empty_probes():
+        with np.errstate(all="ignore"):
+            o = pan.evaluate(ev, p.copy(), q.copy())
+        r = pan.read_result(o[next(iter(o))][0], cfg["metrics"])
+        out[n] = {k: v for k, v in r.items() if k.startswith("global_bin")}
+    return out
+
+
+def persistence_check(ctx, final=False):
+    """a long-lived evaluator with its own handler, and evaluators on the library's default handler, must keep
+    reporting the same (configured) empty-side values while other handlers come and go in the process"""
+    gm = ["DSC", "IOU", "ASSD", "RVD"]
+    base = {"input": "MATCHED_INSTANCE", "matcher": None, "metrics": ["DSC", "IOU"], "global": gm}
+    if ctx._persist is None:
+        h = {m: PERMS[(11 + 17 * k) % len(PERMS)] for k, m in enumerate(GM)}
+        cfg = dict(base, handler=h)
+        ev = pan.make_evaluator(cfg)
+        ctx._persist = (ev, cfg, probe_globals(ev, cfg), h)
+        return
+    ev, cfg, first, h = ctx._persist
+    now = probe_globals(ev, cfg)
+    ctx.count("C13.persistent_evaluator_rechecks")
+    if harness_json(now) != harness_json(first):
+        ctx.viol("empty_side_value_of_long_lived_evaluator_changed", {"first": first, "now": now, "handler": h}, features={"kind": "persistent_handler"})
+    # a fresh evaluator on the default handler: documented default values
+    dcfg = dict(base, handler=None)
+    d = probe_globals(pan.make_evaluator(dcfg), dcfg)
+    for n, sc in (("empty_pred", 1), ("empty_ref", 2), ("both_empty", 0)):
+        for m in gm:
+            want = ref.EDGE_VALUE[ref.DEFAULT_HANDLER[m][sc]]
+            got = d[n]["global_bin_" + m.lower()]
+            ctx.count("C13.empty_side_judged")
+            if not pan.same(got, want):
+                ctx.viol("empty_side_value_not_handler_value", {"handler": "library default", "metric": m, "scenario": n, "got": got, "expected": want},
+                         features={"input": "MATCHED_INSTANCE", "metric": m, "scenario": n, "default_handler": True})
+                return
+
+
+def harness_json(x):
+    import json
+    from vf import harness
+
+    return json.dumps(harness.jsonable(x), sort_keys=True)
+
+
+def teardown(ctx):
+    if ctx._persist is not None:
+        persistence_check(ctx, final=True)
 
 
 def expected_value(metric, pred, refa):
@@ -126,6 +192,8 @@ def repartitions(pred, refa, r, it):
 
 def run(case, ctx):
     fam, i = case["fam"], case["i"]
+    if ctx._persist is None or ctx.cases_run % 20 == 0:
+        persistence_check(ctx)
     r = gen.rng(ctx.seed, "c13", fam, i)
     it = ["UNMATCHED_INSTANCE", "SEMANTIC", "MATCHED_INSTANCE"][i % 3]
     gms = SUBSETS[i % len(SUBSETS)]
